@@ -212,6 +212,7 @@ func GetBuild(cfg BuildCfg) (*Build, error) {
 		return nil
 	}
 	gobin := cfg.Toolchain
+	os.MkdirAll(filepath.Join(mod, "verifharness", "corpus"), 0o755) // (an empty directory is not in a git checkout)
 	if err := run(gobin, "run", "./verifharness/cmd/gen", "-seed", fmt.Sprint(cfg.Corpus), "-o", "verifharness/corpus/types_gen.go"); err != nil {
 		return nil, err
 	}
